@@ -86,6 +86,7 @@ func profileOf(name string) profileCfg {
 	case "queries":
 		c.minFilters = 5
 		m["query"], m["qopen"], m["filter"], m["setrel"], m["twinq"], m["staleq"] = 4, 4, 3, 2, 4, 6
+		m["twinx"] = 3
 		m["tuplescn"] = 5
 	case "cache":
 		c.minFilters = 4
@@ -1203,6 +1204,68 @@ func (g *Gen) opTwinQueries() bool {
 	return true
 }
 
+// opTwinExact: the deterministic core of opTwinQueries.  A fresh typed filter on one relation component, two
+// fresh targets with one and two children, a batch through the filter with a per-call target (which leaves
+// spare capacity in the filter's relation buffer), then two queries of that filter open at once with the two
+// targets: each must count and visit its own children.
+func (g *Gen) opTwinExact() bool {
+	var rels []int
+	for _, n := range g.regNames() {
+		if g.isRel(n) {
+			rels = append(rels, n)
+		}
+	}
+	if len(rels) == 0 || len(g.openQueries) > 0 {
+		return false
+	}
+	r := rels[g.pick(len(rels))]
+	fl := g.nextFilter
+	g.nextFilter++
+	g.emit(fmt.Sprintf("filter f%d typed with=c%d", fl, r))
+	if _, ok := g.h.filters[fl]; !ok {
+		return true
+	}
+	g.filterLabels = append(g.filterLabels, fl)
+	g.typedFilters = append(g.typedFilters, fl)
+	t1, t2 := g.nextEnt, g.nextEnt+1
+	g.nextEnt += 5
+	g.ents = append(g.ents, t1, t2, t2+1, t2+2, t2+3)
+	g.emit(fmt.Sprintf("new0 e%d", t1))
+	g.emit(fmt.Sprintf("new0 e%d", t2))
+	g.emit(fmt.Sprintf("new e%d u c%d:%d>e%d", t2+1, r, g.val(), t1))
+	g.emit(fmt.Sprintf("new e%d u c%d:%d>e%d", t2+2, r, g.val(), t2))
+	g.emit(fmt.Sprintf("new e%d u c%d:%d>e%d", t2+3, r, g.val(), t2))
+	// a batch with a per-call target through the filter (moves nothing: the children of t2 stay with t2)
+	g.emit(fmt.Sprintf("setrelb f%d m nofn rel=c%d>e%d c%d>e%d", fl, r, t2, r, t2))
+	q1, q2 := g.nextQuery, g.nextQuery+1
+	g.nextQuery += 2
+	g.emit(fmt.Sprintf("qopen q%d f%d rel=c%d>e%d", q1, fl, r, t1))
+	g.emit(fmt.Sprintf("qopen q%d f%d rel=c%d>e%d", q2, fl, r, t2))
+	for _, q := range []int{q1, q2, q1} {
+		if g.h.queries[q] != nil {
+			g.emit(fmt.Sprintf("qcount q%d", q))
+		}
+	}
+	a1, a2 := g.h.queries[q1] != nil, g.h.queries[q2] != nil
+	for i := 0; i < 3; i++ {
+		if a1 {
+			g.emit(fmt.Sprintf("qnext q%d", q1))
+			a1 = g.queryActive(q1)
+		}
+		if a2 {
+			g.emit(fmt.Sprintf("qnext q%d", q2))
+			a2 = g.queryActive(q2)
+		}
+	}
+	if a1 {
+		g.emit(fmt.Sprintf("qclose q%d", q1))
+	}
+	if a2 {
+		g.emit(fmt.Sprintf("qclose q%d", q2))
+	}
+	return true
+}
+
 // opTypedWide exercises the generated arities: an entity is created (or extended) through a
 // MapN whose tuple is one of the instantiated windows of any arity 1..12, then Set through it.
 func (g *Gen) opTypedWide() bool {
@@ -2212,6 +2275,7 @@ func (g *Gen) Run(nseq, nops int) {
 			{"relbatch", 2, g.opRelBatchNoFn},
 			{"typedwide", 1, g.opTypedWide},
 			{"twinq", 2, g.opTwinQueries},
+			{"twinx", 1, g.opTwinExact},
 			{"staleq", 1, g.opStaleTargetQuery},
 			{"tuplescn", 1, g.opTupleScenario},
 			{"locked", 1, func() bool { g.emit("locked"); return true }},
